@@ -63,8 +63,7 @@ Independence ==
 Vals == 0..2
 SeqsOf(n) == [1..n -> Vals]
 
-FormCases ==
-    {[fam |-> "form", form |-> fm, x |-> [c |-> c, a |-> a, b |-> b, d |-> d]] : fm \in FormNames, c \in Vals, a \in Vals, b \in Vals, d \in Vals}
+FormCase(fm, c, a, b, d) == [fam |-> "form", form |-> fm, x |-> [c |-> c, a |-> a, b |-> b, d |-> d]]
 
 \* pair / tuple configurations the harness instantiates: name, kind, element types, operations offered
 PairCmp == {"cmp"}
@@ -90,38 +89,45 @@ TC(cf, op, ty2, x) == [fam |-> "tup", cfg |-> cf.n, k |-> cf.k, ty |-> cf.ty, ty
 \* which operations make sense for an element type list (the C++ side additionally probes with requires)
 Copyable(ty) == \A i \in 1..Len(ty) : ty[i] # "mo"
 Assignable(ty) == \A i \in 1..Len(ty) : ty[i] # "cint"
+Unique(ty) == \A i, j \in 1..Len(ty) : ty[i] = ty[j] => i = j        \* get<T> needs T to occur once
 TwoSeqOps(cf) ==
     {"cmp", "ctor_move"} \cup (IF Copyable(cf.ty) THEN {"ctor_copy"} ELSE {})
     \cup (IF Assignable(cf.ty) THEN {"assign_move", "swap", "fswap"} ELSE {})
     \cup (IF Assignable(cf.ty) /\ Copyable(cf.ty) THEN {"assign_copy"} ELSE {})
 
-TupCasesOf(cf) ==
+\* The domains are enumerated by nested quantifiers in the initial predicate (nothing is materialised as one big set)
+InitTup(cf) ==
     LET n == Len(cf.ty) IN
-    {TC(cf, op, cf.ty, [XT0 EXCEPT !.p = p, !.q = q]) : op \in TwoSeqOps(cf), p \in SeqsOf(n), q \in SeqsOf(n)}
-    \cup {TC(cf, op, cf.ty, [XT0 EXCEPT !.p = p, !.i = i, !.mode = m]) : op \in {"get", "get_t"}, p \in SeqsOf(n), i \in 0..(n - 1), m \in 1..4}
-    \cup {TC(cf, op, cf.ty, [XT0 EXCEPT !.p = p, !.mode = m]) : op \in {"apply", "mft"}, p \in SeqsOf(n), m \in 1..3}
-    \cup {TC(cf, "make", cf.ty, [XT0 EXCEPT !.p = p]) : p \in SeqsOf(n)}
-    \cup (IF n = 2 THEN {TC(cf, "sb", cf.ty, [XT0 EXCEPT !.p = p, !.q = q]) : p \in SeqsOf(2), q \in SeqsOf(1)} ELSE {})
+    \/ \E op \in TwoSeqOps(cf), p \in SeqsOf(n), q \in SeqsOf(n) : cs = TC(cf, op, cf.ty, [XT0 EXCEPT !.p = p, !.q = q])
+    \/ \E op \in {"get"} \cup (IF Unique(cf.ty) THEN {"get_t"} ELSE {}), p \in SeqsOf(n), i \in 0..(n - 1), m \in 1..4 :
+          cs = TC(cf, op, cf.ty, [XT0 EXCEPT !.p = p, !.i = i, !.mode = m])
+    \/ \E op \in {"apply", "mft"}, p \in SeqsOf(n), m \in 1..3 : cs = TC(cf, op, cf.ty, [XT0 EXCEPT !.p = p, !.mode = m])
+    \/ \E p \in SeqsOf(n) : cs = TC(cf, "make", cf.ty, [XT0 EXCEPT !.p = p])
+    \/ n = 2 /\ \E p \in SeqsOf(2), q \in SeqsOf(1) : cs = TC(cf, "sb", cf.ty, [XT0 EXCEPT !.p = p, !.q = q])
 
-\* converting construction / assignment pair<U1,U2> -> pair<T1,T2>, and tuple_cat over several shapes
-ConvCases ==
-    UNION {{TC(cf, op, src, [XT0 EXCEPT !.p = p, !.q = q]) :
-               op \in {"ctor_conv_copy", "ctor_conv_move", "assign_conv_copy", "assign_conv_move"}, p \in SeqsOf(2), q \in SeqsOf(2)} :
-           cf \in {c \in Cfgs : c.n \in {"p_ii", "p_ti"}}, src \in {<<"int", "int">>}}
-    \cup {TC(cf, op, <<"trk", "int">>, [XT0 EXCEPT !.p = p, !.q = q]) :
-               cf \in {c \in Cfgs : c.n = "p_tt"}, op \in {"ctor_conv_copy", "ctor_conv_move", "assign_conv_copy", "assign_conv_move"},
-               p \in SeqsOf(2), q \in SeqsOf(2)}
+\* converting construction / assignment pair<U1,U2> -> pair<T1,T2>
+ConvOpsT == {"ctor_conv_copy", "ctor_conv_move", "assign_conv_copy", "assign_conv_move"}
+ConvSrc(n) == IF n = "p_tt" THEN <<"trk", "int">> ELSE <<"int", "int">>
+InitConv ==
+    \E cf \in {c \in Cfgs : c.n \in {"p_ii", "p_ti", "p_tt"}}, op \in ConvOpsT, p \in SeqsOf(2), q \in SeqsOf(2) :
+        cs = TC(cf, op, ConvSrc(cf.n), [XT0 EXCEPT !.p = p, !.q = q])
+
+\* tuple_cat over several shapes (first operand configuration, second operand configuration)
 CatShapes == {<<"t_ii", "t_i">>, <<"t_ttt", "t_ii">>, <<"p_ti", "t_ttt">>, <<"t_0", "t_ii">>, <<"t_i", "t_0">>, <<"t_mic", "p_tt">>}
 CfgOf(n) == CHOOSE c \in Cfgs : c.n = n
-CatCases ==
-    UNION {LET a == CfgOf(sh[1]) b == CfgOf(sh[2]) IN
-           {TC(a, "cat", b.ty, [XT0 EXCEPT !.p = p, !.q = q, !.mode = m1, !.mode2 = m2]) :
-               p \in SeqsOf(Len(a.ty)), q \in SeqsOf(Len(b.ty)), m1 \in {1, 3}, m2 \in {1, 3}} : sh \in CatShapes}
+InitCat ==
+    \E sh \in CatShapes :
+        LET a == CfgOf(sh[1]) b == CfgOf(sh[2]) IN
+        \E p \in SeqsOf(Len(a.ty)), q \in SeqsOf(Len(b.ty)), m1 \in {1, 3}, m2 \in {1, 3} :
+            /\ (m1 = 1 => Copyable(a.ty)) /\ (m2 = 1 => Copyable(b.ty))
+            /\ cs = TC(a, "cat", b.ty, [XT0 EXCEPT !.p = p, !.q = q, !.mode = m1, !.mode2 = m2])
 
-TupCases == UNION {TupCasesOf(cf) : cf \in Cfgs} \cup ConvCases \cup CatCases
-Cases == FormCases \cup TupCases
-
-InitCases == cs \in Cases /\ obj = S0 /\ last = 0
+InitCases ==
+    /\ obj = S0 /\ last = 0
+    /\ \/ \E fm \in FormNames, c \in Vals, a \in Vals, b \in Vals, d \in Vals : cs = FormCase(fm, c, a, b, d)
+       \/ \E cf \in Cfgs : InitTup(cf)
+       \/ InitConv
+       \/ InitCat
 NextCases == UNCHANGED vars
 SpecCases == InitCases /\ [][NextCases]_vars
 
